@@ -271,7 +271,8 @@ def run_conversations(cases):
             box.append(await one(carrier, conv))
 
         try:
-            vloop.run(main)
+            # backstop against a poll that never ends (a conversation needs a few hundred loop iterations)
+            vloop.run(main, max_iter=200000)
             out.append(box[0])
         except vloop.Deadlock:
             out.append({"carrier": carrier, "conv": conv, "read": [["hung", 0, 0, False]], "outcomes": []})
